@@ -47,6 +47,21 @@ def rewrites(rnd, toks, every_position):
         out.append(('tab-space-newline', join({i: '\t \n'})))
     if ws:
         out.append(('all-spaces-doubled', join({i: toks[i][1] * 2 for i in ws})))
+    # combinations: the lexer decides between "whitespace" and "blank-line separator" with state carried from one run of
+    # blanks to the next, so an indented line followed LATER by a line with trailing blanks is a neighbourhood of its own
+    pairs = [(i, j) for i in ws for j in ws if i < j]
+    if not every_position and len(pairs) > 3:
+        pairs = rnd.sample(pairs, 3)
+    elif len(pairs) > 15:
+        pairs = rnd.sample(pairs, 15)
+    for i, j in pairs:
+        out.append(('indent-then-trailing-space', join({i: '\n ', j: ' \n'})))
+        out.append(('indent-then-trailing-tab', join({i: '\n\t', j: '\t\n'})))
+        out.append(('trailing-space-then-indent', join({i: ' \n', j: '\n '})))
+    if len(ws) >= 2:
+        forms = [' ', '  ', '\t', '\n', '\n ', ' \n', ' \n ', '\t\n\t', ' @n ', '\n\t ']
+        for _ in range(4 if every_position else 2):
+            out.append(('random-combination', join({i: rnd.choice(forms) for i in ws})))
     for i in (sub if every_position else sub[:1]):
         out.append(('trailing-space-before-blank-line', join({i: ' \t' + toks[i][1]})))
         out.append(('space-inside-blank-line', join({i: toks[i][1].replace('\n', '\n  ', 1)})))
@@ -155,7 +170,7 @@ def run(ctx):
         inp = rnd.choice(proggen.LOOP_INPUTS if stream == 'loops' else proggen.INPUTS)
         base = add(src, store, inp)
         vs = []
-        if ctx.tier == 'quick' and stream in ('pairs', 'logic', 'loops') and i % 4 != 0:
+        if ctx.tier == 'quick' and ((stream in ('pairs', 'logic', 'loops') and i % 4 != 0) or (stream == 'equality' and i % 12 != 0)):
             continue
         for kind, text in rewrites(rnd, toks, every_position=(stream.startswith('small') or stream == 'blocks-small' or ctx.tier == 'thorough')):
             if kind.endswith('?'):
@@ -199,7 +214,7 @@ def run(ctx):
                 ctx.fail('oracle', c, impl=impl.get(vid), model=None, expect=impl.get(bid), note=f'rewrite `{kind}` changed the result; original source {src!r}')
             elif same_stream and impl.get(vdump) != bd:
                 ctx.fail('oracle', cases[int(vdump)], impl=impl.get(vdump), model=None, expect=bd, note=f'rewrite `{kind}` changed the built instruction stream (the parse tree differs by more than trivia); original source {src!r}')
-    ctx.rule = ('every generated core-language program (small-exhaustive + random) x rewrites: add a space / a tab to an existing whitespace token (every position for small programs), double all spaces, insert an annotation or a comment line where whitespace is, add spaces/tabs before and inside a blank line, leading / trailing whitespace, a space added or removed on either side of a binary operator or comma where the edit leaves the tokens unchanged (checked by lexing the variant), a space or tab just inside a bracket where none was (after `(` `[` `{`, before `)` `]` `}`), the same rewrites on programs that carry pure side-effect blocks after atoms and in front of operands, '
+    ctx.rule = ('every generated core-language program (small-exhaustive + random) x rewrites: add a space / a tab to an existing whitespace token (every position for small programs), double all spaces, insert an annotation or a comment line where whitespace is, add spaces/tabs before and inside a blank line, leading / trailing whitespace, pairs of positions rewritten together (an indented line followed later by a line with trailing blanks, and the reverse) and random combinations of all whitespace forms over all positions, a space added or removed on either side of a binary operator or comma where the edit leaves the tokens unchanged (checked by lexing the variant), a space or tab just inside a bracket where none was (after `(` `[` `{`, before `)` `]` `}`), the same rewrites on programs that carry pure side-effect blocks after atoms and in front of operands, '
                 'wrap complete operands in parentheses (printer option), hang pure side-effect blocks on atoms; oracle: identical result value and host-call trace, and for whitespace/annotation rewrites an identical built instruction stream; distinct = distinct (rewrite kind, rewritten source).')
     ctx.suites = {'RUN+DUMP': len(cases), 'rewrites': kinds, 'operator-spacing edits skipped because they change the tokens': skipped_not_applicable}
     ctx.distribution = progsuite.feature_distribution([p for p in progs if p[2] is not None])
